@@ -129,6 +129,24 @@ def _space(rng, n, kinds=('rn', 'rnw', 'discr')):
     return odl.uniform_discr(0, n * rng.choice([0.5, 2.0, 1.0]), n), 'uniform_discr'
 
 
+class _cguard(object):
+    """correspondence generators: an exception raised by the implementation on one case becomes one case that fails
+    (constructor CRaised of C12/Corr.v, check = false) with the exception in its description"""
+
+    def __init__(self, cs, family):
+        self.cs, self.family = cs, family
+
+    def __enter__(self):
+        return self
+
+    def __exit__(self, et, ev, tb):
+        if et is None or issubclass(et, (KeyboardInterrupt, SystemExit, GeneratorExit)):
+            return False
+        self.cs.add('CRaised', {'family': self.family, 'raised': '%s: %s' % (et.__name__, str(ev)[:200])},
+                    ('raised', self.family, et.__name__))
+        return True
+
+
 def _cb(tr):
     return lambda x: tr.append(_flat(x).tolist())
 
@@ -282,50 +300,51 @@ def _kz_cases(rng, tier, cs):
     import odl
     nper = 24 if tier == 'quick' else 100
     for _ in range(nper):
-        n = rng.randint(1, 4)
-        dom, dk = _space(rng, n, ('rn', 'rnw'))
-        nb = rng.randint(1, 4)
-        ops, rhs, blocks, descb = [], [], [], []
-        for _i in range(nb):
-            m = rng.randint(1, 3)
-            M = _imat(rng, m, n)
-            if rng.random() < 0.4:
-                M = M * rng.choice([8.0, 16.0, 0.25])      # blocks of very different norm => very different omega_i
-            ran = odl.rn(m) if dk == 'rn' else odl.rn(m, weighting=dom.weighting.const)
-            op = odl.MatrixOperator(M, dom, ran)
-            b = _ivec(rng, m)
-            om = float(2.0 ** np.round(np.log2(rng.choice(DY) / float(np.sum(M * M)))))
-            ops.append(op)
-            rhs.append(ran.element(b))
-            blocks.append((M, _matrix(op.adjoint), b, om))
-            descb.append({'M': M.tolist(), 'b': b, 'omega': om})
-        x0 = _ivec(rng, n, -3, 3)
-        niter = rng.choice([0, 1, 2, 3])
-        inner = rng.random() < 0.4
-        same_omega = rng.random() < 0.3
-        if same_omega:
-            blocks = [(M, Mt, b, blocks[0][3]) for (M, Mt, b, _o) in blocks]
-        tr = []
-        x = dom.element(x0)
-        # random=True: the permutations are drawn with np.random.permutation, once per outer iteration and
-        # nothing else in the loop consumes the global generator -> fix the seed, replay the draws for the model
-        randomised = rng.random() < 0.5
-        orders = 'None'
-        if randomised:
-            seed = rng.randrange(2 ** 31)
-            np.random.seed(seed)
-            drawn = [np.random.permutation(range(nb)).tolist() for _ in range(niter)]
-            orders = '(Some %s)' % C.lst([C.lst([C.nat(i) for i in o]) + '%nat' for o in drawn])
-            np.random.seed(seed)
-        odl.solvers.kaczmarz(ops, x, rhs, niter, omega=(blocks[0][3] if same_omega else [bl[3] for bl in blocks]),
-                             random=randomised, callback=_cb(tr), callback_loop='inner' if inner else 'outer')
-        bt = C.lst([_rec(kb_M=C.qss(M.tolist()), kb_Mt=C.qss(Mt.tolist()), kb_b=C.qs(b), kb_omega=C.q(om))
-                    for (M, Mt, b, om) in blocks])
-        term = 'CKz ' + _rec(kz_blocks=bt, kz_x0=C.qs(x0), kz_niter=C.nat(niter), kz_inner=C.b(inner),
-                             kz_orders=orders, kz_trace=C.qss(tr))
-        cs.add(term, {'solver': 'kaczmarz', 'space': dk, 'blocks': descb, 'x0': x0, 'niter': niter, 'inner': inner,
-                      'random': randomised, 'orders': orders},
-               ('kz', dk, str(descb), tuple(x0), niter, inner, orders) if _moved(x0, tr) else None)
+        with _cguard(cs, 'kz_cases'):
+            n = rng.randint(1, 4)
+            dom, dk = _space(rng, n, ('rn', 'rnw'))
+            nb = rng.randint(1, 4)
+            ops, rhs, blocks, descb = [], [], [], []
+            for _i in range(nb):
+                m = rng.randint(1, 3)
+                M = _imat(rng, m, n)
+                if rng.random() < 0.4:
+                    M = M * rng.choice([8.0, 16.0, 0.25])      # blocks of very different norm => very different omega_i
+                ran = odl.rn(m) if dk == 'rn' else odl.rn(m, weighting=dom.weighting.const)
+                op = odl.MatrixOperator(M, dom, ran)
+                b = _ivec(rng, m)
+                om = float(2.0 ** np.round(np.log2(rng.choice(DY) / float(np.sum(M * M)))))
+                ops.append(op)
+                rhs.append(ran.element(b))
+                blocks.append((M, _matrix(op.adjoint), b, om))
+                descb.append({'M': M.tolist(), 'b': b, 'omega': om})
+            x0 = _ivec(rng, n, -3, 3)
+            niter = rng.choice([0, 1, 2, 3])
+            inner = rng.random() < 0.4
+            same_omega = rng.random() < 0.3
+            if same_omega:
+                blocks = [(M, Mt, b, blocks[0][3]) for (M, Mt, b, _o) in blocks]
+            tr = []
+            x = dom.element(x0)
+            # random=True: the permutations are drawn with np.random.permutation, once per outer iteration and
+            # nothing else in the loop consumes the global generator -> fix the seed, replay the draws for the model
+            randomised = rng.random() < 0.5
+            orders = 'None'
+            if randomised:
+                seed = rng.randrange(2 ** 31)
+                np.random.seed(seed)
+                drawn = [np.random.permutation(range(nb)).tolist() for _ in range(niter)]
+                orders = '(Some %s)' % C.lst([C.lst([C.nat(i) for i in o]) + '%nat' for o in drawn])
+                np.random.seed(seed)
+            odl.solvers.kaczmarz(ops, x, rhs, niter, omega=(blocks[0][3] if same_omega else [bl[3] for bl in blocks]),
+                                 random=randomised, callback=_cb(tr), callback_loop='inner' if inner else 'outer')
+            bt = C.lst([_rec(kb_M=C.qss(M.tolist()), kb_Mt=C.qss(Mt.tolist()), kb_b=C.qs(b), kb_omega=C.q(om))
+                        for (M, Mt, b, om) in blocks])
+            term = 'CKz ' + _rec(kz_blocks=bt, kz_x0=C.qs(x0), kz_niter=C.nat(niter), kz_inner=C.b(inner),
+                                 kz_orders=orders, kz_trace=C.qss(tr))
+            cs.add(term, {'solver': 'kaczmarz', 'space': dk, 'blocks': descb, 'x0': x0, 'niter': niter, 'inner': inner,
+                          'random': randomised, 'orders': orders},
+                   ('kz', dk, str(descb), tuple(x0), niter, inner, orders) if _moved(x0, tr) else None)
 
 
 def _pm_cases(rng, tier, cs):
@@ -333,136 +352,139 @@ def _pm_cases(rng, tier, cs):
     from odl.operator.oputils import power_method_opnorm
     nper = 24 if tier == 'quick' else 100
     for _ in range(nper):
-        n = rng.randint(1, 4)
-        dom, dk = _space(rng, n)
-        selfadj = rng.random() < 0.4
-        if selfadj:
-            B = _imat(rng, n, n, -2, 2)
-            M = B + B.T
-            if rng.random() < 0.2:
-                M = np.zeros((n, n))
-                M[0, 0] = 1.0
-            op = odl.MatrixOperator(M, dom, dom)
-            # `op.adjoint is op` is what selects the branch: use a wrapper that says so
-            class SelfAdj(odl.Operator):
-                def __init__(self):
-                    super(SelfAdj, self).__init__(dom, dom, linear=True)
+        with _cguard(cs, 'pm_cases'):
+            n = rng.randint(1, 4)
+            dom, dk = _space(rng, n)
+            selfadj = rng.random() < 0.4
+            if selfadj:
+                B = _imat(rng, n, n, -2, 2)
+                M = B + B.T
+                if rng.random() < 0.2:
+                    M = np.zeros((n, n))
+                    M[0, 0] = 1.0
+                op = odl.MatrixOperator(M, dom, dom)
+                # `op.adjoint is op` is what selects the branch: use a wrapper that says so
+                class SelfAdj(odl.Operator):
+                    def __init__(self):
+                        super(SelfAdj, self).__init__(dom, dom, linear=True)
 
-                def _call(self, x, out):
-                    op(x, out=out)
+                    def _call(self, x, out):
+                        op(x, out=out)
 
-                @property
-                def adjoint(self):
-                    return self
-            use = SelfAdj()
-            Mt = M
-        else:
-            m = rng.randint(1, 4)
-            M = _imat(rng, m, n)
-            zero_reach = rng.random() < 0.2
-            if zero_reach:
-                M[:, 0] = 0.0
-            ran = (odl.rn(m) if dk == 'rn' else odl.rn(m, weighting=dom.weighting.const) if dk == 'rn-const-weight'
-                   else odl.uniform_discr(0, m * dom.cell_volume, m))
-            use = odl.MatrixOperator(M, dom, ran)
-            Mt = _matrix(use.adjoint)
-        x0 = _ivec(rng, n, -3, 3)
-        r = rng.random()
-        if r < 0.1:
-            x0 = [0.0] * n
-        elif r < 0.25 or (not selfadj and zero_reach):
-            x0 = [1.0] + [0.0] * (n - 1)
-        maxiter = rng.choice([1, 2, 3, 4, 6]) * (1 if selfadj else 2)
-        exact = rng.random() < 0.5
-        xs = []
-        raised, est = False, 0.0
-        try:
-            kw = dict(rtol=0.0, atol=0.0) if exact else {}
-            est = float(power_method_opnorm(use, xstart=dom.element(x0), maxiter=maxiter, callback=_cb(xs), **kw))
-        except ValueError:
-            raised = True
-        ncalls = maxiter if selfadj else maxiter // 2
-        iters = len(xs) + (0 if (len(xs) == ncalls and not raised) else 1)
-        if not any(x0):
-            iters = 0          # raises before the loop
-        term = 'CPm ' + _rec(pm_M=C.qss(M.tolist()), pm_Mt=C.qss(np.asarray(Mt).tolist()), pm_w=C.qs(_weights(dom)),
-                             pm_selfadj=C.b(selfadj), pm_x0=C.qs(x0), pm_iters=C.nat(iters), pm_raised=C.b(raised),
-                             pm_est=C.q(est), pm_xs=C.qss(xs))
-        cs.add(term, {'solver': 'power_method', 'space': dk, 'M': M.tolist(), 'x0': x0, 'maxiter': maxiter,
-                      'selfadj': selfadj, 'iters': iters, 'raised': raised},
-               ('pm', dk, str(M.tolist()), tuple(x0), maxiter, selfadj, exact))
+                    @property
+                    def adjoint(self):
+                        return self
+                use = SelfAdj()
+                Mt = M
+            else:
+                m = rng.randint(1, 4)
+                M = _imat(rng, m, n)
+                zero_reach = rng.random() < 0.2
+                if zero_reach:
+                    M[:, 0] = 0.0
+                ran = (odl.rn(m) if dk == 'rn' else odl.rn(m, weighting=dom.weighting.const) if dk == 'rn-const-weight'
+                       else odl.uniform_discr(0, m * dom.cell_volume, m))
+                use = odl.MatrixOperator(M, dom, ran)
+                Mt = _matrix(use.adjoint)
+            x0 = _ivec(rng, n, -3, 3)
+            r = rng.random()
+            if r < 0.1:
+                x0 = [0.0] * n
+            elif r < 0.25 or (not selfadj and zero_reach):
+                x0 = [1.0] + [0.0] * (n - 1)
+            maxiter = rng.choice([1, 2, 3, 4, 6]) * (1 if selfadj else 2)
+            exact = rng.random() < 0.5
+            xs = []
+            raised, est = False, 0.0
+            try:
+                kw = dict(rtol=0.0, atol=0.0) if exact else {}
+                est = float(power_method_opnorm(use, xstart=dom.element(x0), maxiter=maxiter, callback=_cb(xs), **kw))
+            except ValueError:
+                raised = True
+            ncalls = maxiter if selfadj else maxiter // 2
+            iters = len(xs) + (0 if (len(xs) == ncalls and not raised) else 1)
+            if not any(x0):
+                iters = 0          # raises before the loop
+            term = 'CPm ' + _rec(pm_M=C.qss(M.tolist()), pm_Mt=C.qss(np.asarray(Mt).tolist()), pm_w=C.qs(_weights(dom)),
+                                 pm_selfadj=C.b(selfadj), pm_x0=C.qs(x0), pm_iters=C.nat(iters), pm_raised=C.b(raised),
+                                 pm_est=C.q(est), pm_xs=C.qss(xs))
+            cs.add(term, {'solver': 'power_method', 'space': dk, 'M': M.tolist(), 'x0': x0, 'maxiter': maxiter,
+                          'selfadj': selfadj, 'iters': iters, 'raised': raised},
+                   ('pm', dk, str(M.tolist()), tuple(x0), maxiter, selfadj, exact))
 
 
 def _pdhg_cases(rng, tier, cs):
     import odl
     nper = 30 if tier == 'quick' else 120
     for _ in range(nper):
-        L, lk = _operator(rng, rng.randint(1, 4))
-        f, ft, fk = _fn(rng, L.domain, PRIMAL_KINDS)
-        g, gt, gk = _fn(rng, L.range, DUAL_KINDS)
-        n, m = _size(L.domain), _size(L.range)
-        M, Mt = _matrix(L), _matrix(L.adjoint)
-        tau, sigma = rng.choice(DY), rng.choice(DY)
-        theta = rng.choice([1.0, 1.0, 0.5, 0.0])
-        x0 = _ivec(rng, n, -3, 3)
-        niter = rng.choice([0, 1, 2, 3, 5])
-        given = rng.random() < 0.4
-        xr0 = _ivec(rng, n, -3, 3) if given else list(x0)
-        y0 = _ivec(rng, m, -2, 2) if given else [0.0] * m
-        x = _unflat(L.domain, x0)
-        xr = _unflat(L.domain, xr0)
-        y = _unflat(L.range, y0)
-        tr = []
-        obs = given or rng.random() < 0.5     # defaults (x_relax = x.copy(), y = 0) cannot be observed afterwards
-        kw = dict(x_relax=xr, y=y) if obs else {}
-        acc = 'None'
-        accd = None
-        if rng.random() < 0.3:
-            primal = rng.random() < 0.5
-            gamma = rng.choice([0.5, 1.0, 0.25])
-            kw['gamma_primal' if primal else 'gamma_dual'] = gamma
-            roots, t_, s_ = [], tau, sigma
-            for _k in range(niter):           # the same float operations as the loop body
-                r_ = float(np.sqrt(1 + 2 * gamma * (t_ if primal else s_)))
-                th_ = float(1 / r_)
-                roots.append(r_)
-                if primal:
-                    t_, s_ = t_ * th_, s_ / th_
-                else:
-                    t_, s_ = t_ / th_, s_ * th_
-            acc = '(Some (%s, %s, %s))' % (C.b(primal), C.q(gamma), C.qs(roots))
-            accd = {'primal': primal, 'gamma': gamma}
-        odl.solvers.pdhg(x, f, g, L, niter, tau=tau, sigma=sigma, theta=theta, callback=_cb(tr), **kw)
-        term = 'CPdhg ' + _rec(ph_acc=acc, ph_f=ft, ph_g=gt, ph_M=C.qss(M.tolist()), ph_Mt=C.qss(Mt.tolist()), ph_tau=C.q(tau),
-                               ph_sigma=C.q(sigma), ph_theta=C.q(theta), ph_x0=C.qs(x0), ph_xr0=C.qs(xr0),
-                               ph_y0=C.qs(y0), ph_niter=C.nat(niter), ph_trace=C.qss(tr), ph_obs=C.b(obs), ph_xr=C.qs(_flat(xr)),
-                               ph_y=C.qs(_flat(y)))
-        cs.add(term, {'solver': 'pdhg', 'op': lk, 'f': fk, 'g': gk, 'M': M.tolist(), 'tau': tau, 'sigma': sigma,
-                      'theta': theta, 'x0': x0, 'niter': niter, 'acceleration': accd},
-               ('pdhg', lk, ft, gt, str(M.tolist()), tau, sigma, theta, tuple(x0), niter, str(accd)) if _moved(x0, tr) else None)
+        with _cguard(cs, 'pdhg_cases'):
+            L, lk = _operator(rng, rng.randint(1, 4))
+            f, ft, fk = _fn(rng, L.domain, PRIMAL_KINDS)
+            g, gt, gk = _fn(rng, L.range, DUAL_KINDS)
+            n, m = _size(L.domain), _size(L.range)
+            M, Mt = _matrix(L), _matrix(L.adjoint)
+            tau, sigma = rng.choice(DY), rng.choice(DY)
+            theta = rng.choice([1.0, 1.0, 0.5, 0.0])
+            x0 = _ivec(rng, n, -3, 3)
+            niter = rng.choice([0, 1, 2, 3, 5])
+            given = rng.random() < 0.4
+            xr0 = _ivec(rng, n, -3, 3) if given else list(x0)
+            y0 = _ivec(rng, m, -2, 2) if given else [0.0] * m
+            x = _unflat(L.domain, x0)
+            xr = _unflat(L.domain, xr0)
+            y = _unflat(L.range, y0)
+            tr = []
+            obs = given or rng.random() < 0.5     # defaults (x_relax = x.copy(), y = 0) cannot be observed afterwards
+            kw = dict(x_relax=xr, y=y) if obs else {}
+            acc = 'None'
+            accd = None
+            if rng.random() < 0.3:
+                primal = rng.random() < 0.5
+                gamma = rng.choice([0.5, 1.0, 0.25])
+                kw['gamma_primal' if primal else 'gamma_dual'] = gamma
+                roots, t_, s_ = [], tau, sigma
+                for _k in range(niter):           # the same float operations as the loop body
+                    r_ = float(np.sqrt(1 + 2 * gamma * (t_ if primal else s_)))
+                    th_ = float(1 / r_)
+                    roots.append(r_)
+                    if primal:
+                        t_, s_ = t_ * th_, s_ / th_
+                    else:
+                        t_, s_ = t_ / th_, s_ * th_
+                acc = '(Some (%s, %s, %s))' % (C.b(primal), C.q(gamma), C.qs(roots))
+                accd = {'primal': primal, 'gamma': gamma}
+            odl.solvers.pdhg(x, f, g, L, niter, tau=tau, sigma=sigma, theta=theta, callback=_cb(tr), **kw)
+            term = 'CPdhg ' + _rec(ph_acc=acc, ph_f=ft, ph_g=gt, ph_M=C.qss(M.tolist()), ph_Mt=C.qss(Mt.tolist()), ph_tau=C.q(tau),
+                                   ph_sigma=C.q(sigma), ph_theta=C.q(theta), ph_x0=C.qs(x0), ph_xr0=C.qs(xr0),
+                                   ph_y0=C.qs(y0), ph_niter=C.nat(niter), ph_trace=C.qss(tr), ph_obs=C.b(obs), ph_xr=C.qs(_flat(xr)),
+                                   ph_y=C.qs(_flat(y)))
+            cs.add(term, {'solver': 'pdhg', 'op': lk, 'f': fk, 'g': gk, 'M': M.tolist(), 'tau': tau, 'sigma': sigma,
+                          'theta': theta, 'x0': x0, 'niter': niter, 'acceleration': accd},
+                   ('pdhg', lk, ft, gt, str(M.tolist()), tau, sigma, theta, tuple(x0), niter, str(accd)) if _moved(x0, tr) else None)
 
 
 def _admm_cases(rng, tier, cs):
     import odl
     nper = 24 if tier == 'quick' else 100
     for _ in range(nper):
-        L, lk = _operator(rng, rng.randint(1, 4))
-        f, ft, fk = _fn(rng, L.domain, PRIMAL_KINDS)
-        g, gt, gk = _fn(rng, L.range, PRIMAL_KINDS)
-        n, m = _size(L.domain), _size(L.range)
-        M, Mt = _matrix(L), _matrix(L.adjoint)
-        tau, sigma = rng.choice(DY), rng.choice(DY)
-        x0 = _ivec(rng, n, -3, 3)
-        niter = rng.choice([0, 1, 2, 3, 5])
-        x = _unflat(L.domain, x0)
-        tr = []
-        odl.solvers.admm_linearized(x, f, g, L, tau, sigma, niter, callback=_cb(tr))
-        term = 'CAdmm ' + _rec(am_f=ft, am_g=gt, am_M=C.qss(M.tolist()), am_Mt=C.qss(Mt.tolist()), am_tau=C.q(tau),
-                               am_sigma=C.q(sigma), am_x0=C.qs(x0), am_nW=C.nat(m), am_niter=C.nat(niter),
-                               am_trace=C.qss(tr))
-        cs.add(term, {'solver': 'admm_linearized', 'op': lk, 'f': fk, 'g': gk, 'M': M.tolist(), 'tau': tau,
-                      'sigma': sigma, 'x0': x0, 'niter': niter},
-               ('admm', lk, ft, gt, str(M.tolist()), tau, sigma, tuple(x0), niter) if _moved(x0, tr) else None)
+        with _cguard(cs, 'admm_cases'):
+            L, lk = _operator(rng, rng.randint(1, 4))
+            f, ft, fk = _fn(rng, L.domain, PRIMAL_KINDS)
+            g, gt, gk = _fn(rng, L.range, PRIMAL_KINDS)
+            n, m = _size(L.domain), _size(L.range)
+            M, Mt = _matrix(L), _matrix(L.adjoint)
+            tau, sigma = rng.choice(DY), rng.choice(DY)
+            x0 = _ivec(rng, n, -3, 3)
+            niter = rng.choice([0, 1, 2, 3, 5])
+            x = _unflat(L.domain, x0)
+            tr = []
+            odl.solvers.admm_linearized(x, f, g, L, tau, sigma, niter, callback=_cb(tr))
+            term = 'CAdmm ' + _rec(am_f=ft, am_g=gt, am_M=C.qss(M.tolist()), am_Mt=C.qss(Mt.tolist()), am_tau=C.q(tau),
+                                   am_sigma=C.q(sigma), am_x0=C.qs(x0), am_nW=C.nat(m), am_niter=C.nat(niter),
+                                   am_trace=C.qss(tr))
+            cs.add(term, {'solver': 'admm_linearized', 'op': lk, 'f': fk, 'g': gk, 'M': M.tolist(), 'tau': tau,
+                          'sigma': sigma, 'x0': x0, 'niter': niter},
+                   ('admm', lk, ft, gt, str(M.tolist()), tau, sigma, tuple(x0), niter) if _moved(x0, tr) else None)
 
 
 def _apg_roots(niter):
@@ -478,36 +500,37 @@ def _pg_cases(rng, tier, cs):
     import odl
     nper = 30 if tier == 'quick' else 120
     for _ in range(nper):
-        n = rng.randint(1, 4)
-        space, sk = _space(rng, n, ('rn', 'rn', 'discr'))
-        f, ft, fk = _fn(rng, space, PRIMAL_KINDS)
-        g, gterm, gd = _smooth(rng, space)
-        gamma = rng.choice([0.5, 0.25, 0.125, 0.0625])
-        x0 = _ivec(rng, n, -3, 3)
-        niter = rng.choice([0, 1, 2, 3, 5])
-        accel = rng.random() < 0.45
-        x = space.element(x0)
-        tr = []
-        if accel:
-            odl.solvers.accelerated_proximal_gradient(x, f, g, gamma, niter, callback=_cb(tr))
-            lams, roots = [], _apg_roots(niter)
-        else:
-            mode = rng.choice(['default', 'const', 'callable'])
-            seq = [rng.choice([1.0, 0.5, 1.5, 0.25]) for _ in range(niter)]
-            if mode == 'default':
-                seq = [1.0] * niter
-                odl.solvers.proximal_gradient(x, f, g, gamma, niter, callback=_cb(tr))
-            elif mode == 'const':
-                seq = [seq[0] if seq else 1.0] * niter
-                odl.solvers.proximal_gradient(x, f, g, gamma, niter, callback=_cb(tr), lam=(seq[0] if seq else 1.0))
+        with _cguard(cs, 'pg_cases'):
+            n = rng.randint(1, 4)
+            space, sk = _space(rng, n, ('rn', 'rn', 'discr'))
+            f, ft, fk = _fn(rng, space, PRIMAL_KINDS)
+            g, gterm, gd = _smooth(rng, space)
+            gamma = rng.choice([0.5, 0.25, 0.125, 0.0625])
+            x0 = _ivec(rng, n, -3, 3)
+            niter = rng.choice([0, 1, 2, 3, 5])
+            accel = rng.random() < 0.45
+            x = space.element(x0)
+            tr = []
+            if accel:
+                odl.solvers.accelerated_proximal_gradient(x, f, g, gamma, niter, callback=_cb(tr))
+                lams, roots = [], _apg_roots(niter)
             else:
-                odl.solvers.proximal_gradient(x, f, g, gamma, niter, callback=_cb(tr), lam=lambda k: seq[k])
-            lams, roots = seq, []
-        term = 'CPg ' + _rec(pg_f=ft, pg_g=gterm, pg_gamma=C.q(gamma), pg_lams=C.qs(lams), pg_x0=C.qs(x0),
-                             pg_accel=C.b(accel), pg_roots=C.qs(roots), pg_trace=C.qss(tr))
-        cs.add(term, {'solver': 'accelerated_proximal_gradient' if accel else 'proximal_gradient', 'space': sk,
-                      'f': fk, 'g': gd, 'gamma': gamma, 'lams': lams, 'x0': x0, 'niter': niter},
-               ('pg', accel, sk, ft, str(gd), gamma, tuple(lams), tuple(x0), niter) if _moved(x0, tr) else None)
+                mode = rng.choice(['default', 'const', 'callable'])
+                seq = [rng.choice([1.0, 0.5, 1.5, 0.25]) for _ in range(niter)]
+                if mode == 'default':
+                    seq = [1.0] * niter
+                    odl.solvers.proximal_gradient(x, f, g, gamma, niter, callback=_cb(tr))
+                elif mode == 'const':
+                    seq = [seq[0] if seq else 1.0] * niter
+                    odl.solvers.proximal_gradient(x, f, g, gamma, niter, callback=_cb(tr), lam=(seq[0] if seq else 1.0))
+                else:
+                    odl.solvers.proximal_gradient(x, f, g, gamma, niter, callback=_cb(tr), lam=lambda k: seq[k])
+                lams, roots = seq, []
+            term = 'CPg ' + _rec(pg_f=ft, pg_g=gterm, pg_gamma=C.q(gamma), pg_lams=C.qs(lams), pg_x0=C.qs(x0),
+                                 pg_accel=C.b(accel), pg_roots=C.qs(roots), pg_trace=C.qss(tr))
+            cs.add(term, {'solver': 'accelerated_proximal_gradient' if accel else 'proximal_gradient', 'space': sk,
+                          'f': fk, 'g': gd, 'gamma': gamma, 'lams': lams, 'x0': x0, 'niter': niter},
+                   ('pg', accel, sk, ft, str(gd), gamma, tuple(lams), tuple(x0), niter) if _moved(x0, tr) else None)
 
 
 def fb_alias_variant():
@@ -566,64 +589,66 @@ def _fb_cases(rng, tier, cs, alias):
     import odl
     nper = 24 if tier == 'quick' else 100
     for idx in range(nper):
-        n = rng.randint(1, 3)
-        space = odl.rn(n)
-        forced = idx < 2
-        f, ft, fk = _fn(rng, space, ['l1', 'tr-l2sq', 'l2sq'] if forced else PRIMAL_KINDS)
-        if rng.random() < 0.3:
-            h, hterm, hd = (odl.solvers.ZeroFunctional(space),
-                            _rec(sm_q=C.q(0), sm_M=C.qss(np.eye(n).tolist()), sm_Mt=C.qss(np.eye(n).tolist()),
-                                 sm_b=C.qs([0.0] * n)), 'zero')
-        else:
-            h, hterm, hd = _smooth(rng, space)
-        Ls, gs, ls, terms, desc = _blocks(rng, space, 0 if forced else rng.choice([0, 1, 1, 2]), ['l2sq', 'tr-l2sq'])
-        tau = rng.choice(DY)
-        x0 = [float(rng.randint(1, 3)) for _ in range(n)] if forced else _ivec(rng, n, -3, 3)
-        niter = rng.choice([2, 3]) if forced else rng.choice([0, 1, 2, 3, 5])
-        x = space.element(x0)
-        tr = []
-        kw = {'l': ls} if ls is not None else {}
-        odl.solvers.forward_backward_pd(x, f, gs, Ls, h, tau, [t[1] for t in terms], niter, callback=_cb(tr), **kw)
-        term = 'CFb ' + _rec(fb_f=ft, fb_h=hterm, fb_blocks=C.lst([t[0] for t in terms]), fb_tau=C.q(tau),
-                             fb_x0=C.qs(x0), fb_niter=C.nat(niter), fb_alias=C.b(bool(alias)), fb_trace=C.qss(tr))
-        cs.add(term, {'solver': 'forward_backward_pd', 'f': fk, 'h': hd, 'blocks': desc, 'tau': tau, 'x0': x0,
-                      'niter': niter, 'alias_variant': alias},
-               ('fb', ft, str(hd), str(desc), tau, tuple(x0), niter) if _moved(x0, tr) else None)
+        with _cguard(cs, 'fb_cases'):
+            n = rng.randint(1, 3)
+            space = odl.rn(n)
+            forced = idx < 2
+            f, ft, fk = _fn(rng, space, ['l1', 'tr-l2sq', 'l2sq'] if forced else PRIMAL_KINDS)
+            if rng.random() < 0.3:
+                h, hterm, hd = (odl.solvers.ZeroFunctional(space),
+                                _rec(sm_q=C.q(0), sm_M=C.qss(np.eye(n).tolist()), sm_Mt=C.qss(np.eye(n).tolist()),
+                                     sm_b=C.qs([0.0] * n)), 'zero')
+            else:
+                h, hterm, hd = _smooth(rng, space)
+            Ls, gs, ls, terms, desc = _blocks(rng, space, 0 if forced else rng.choice([0, 1, 1, 2]), ['l2sq', 'tr-l2sq'])
+            tau = rng.choice(DY)
+            x0 = [float(rng.randint(1, 3)) for _ in range(n)] if forced else _ivec(rng, n, -3, 3)
+            niter = rng.choice([2, 3]) if forced else rng.choice([0, 1, 2, 3, 5])
+            x = space.element(x0)
+            tr = []
+            kw = {'l': ls} if ls is not None else {}
+            odl.solvers.forward_backward_pd(x, f, gs, Ls, h, tau, [t[1] for t in terms], niter, callback=_cb(tr), **kw)
+            term = 'CFb ' + _rec(fb_f=ft, fb_h=hterm, fb_blocks=C.lst([t[0] for t in terms]), fb_tau=C.q(tau),
+                                 fb_x0=C.qs(x0), fb_niter=C.nat(niter), fb_alias=C.b(bool(alias)), fb_trace=C.qss(tr))
+            cs.add(term, {'solver': 'forward_backward_pd', 'f': fk, 'h': hd, 'blocks': desc, 'tau': tau, 'x0': x0,
+                          'niter': niter, 'alias_variant': alias},
+                   ('fb', ft, str(hd), str(desc), tau, tuple(x0), niter) if _moved(x0, tr) else None)
 
 
 def _dr_cases(rng, tier, cs):
     import odl
     nper = 24 if tier == 'quick' else 100
     for idx in range(nper):
-        n = rng.randint(1, 3)
-        space = odl.rn(n)
-        forced = idx < 3            # always a few runs of the `len(L) == 0` branches that can tell updates apart
-        f, ft, fk = _fn(rng, space, ['l1', 'tr-l2sq', 'l2sq'] if forced else PRIMAL_KINDS)
-        Ls, gs, ls, terms, desc = _blocks(rng, space, 0 if forced else rng.choice([0, 1, 1, 2, 3]), DUAL_KINDS)
-        tau = rng.choice(DY)
-        x0 = [float(rng.randint(1, 3)) for _ in range(n)] if forced else _ivec(rng, n, -3, 3)
-        niter = rng.choice([2, 3]) if forced else rng.choice([0, 1, 2, 3, 5])
-        mode = rng.choice(['default', 'const', 'callable'])
-        seq = [rng.choice([1.0, 0.5, 1.5]) for _ in range(niter)]
-        x = space.element(x0)
-        tr = []
-        kw = {}
-        if mode == 'default':
-            seq = [1.0] * niter
-        elif mode == 'const':
-            seq = [seq[0] if seq else 1.0] * niter
-            kw['lam'] = seq[0] if seq else 1.0
-        else:
-            kw['lam'] = lambda k: seq[k]
-        if ls is not None:
-            kw['l'] = ls
-        odl.solvers.douglas_rachford_pd(x, f, gs, Ls, niter, tau=tau, sigma=[t[1] for t in terms],
-                                        callback=_cb(tr), **kw)
-        term = 'CDr ' + _rec(dr_f=ft, dr_blocks=C.lst([t[0] for t in terms]), dr_tau=C.q(tau), dr_lams=C.qs(seq),
-                             dr_x0=C.qs(x0), dr_trace=C.qss(tr), dr_final=C.qs(_flat(x)))
-        cs.add(term, {'solver': 'douglas_rachford_pd', 'f': fk, 'blocks': desc, 'tau': tau, 'lams': seq, 'x0': x0,
-                      'niter': niter},
-               ('dr', ft, str(desc), tau, tuple(seq), tuple(x0), niter) if _moved(x0, tr) else None)
+        with _cguard(cs, 'dr_cases'):
+            n = rng.randint(1, 3)
+            space = odl.rn(n)
+            forced = idx < 3            # always a few runs of the `len(L) == 0` branches that can tell updates apart
+            f, ft, fk = _fn(rng, space, ['l1', 'tr-l2sq', 'l2sq'] if forced else PRIMAL_KINDS)
+            Ls, gs, ls, terms, desc = _blocks(rng, space, 0 if forced else rng.choice([0, 1, 1, 2, 3]), DUAL_KINDS)
+            tau = rng.choice(DY)
+            x0 = [float(rng.randint(1, 3)) for _ in range(n)] if forced else _ivec(rng, n, -3, 3)
+            niter = rng.choice([2, 3]) if forced else rng.choice([0, 1, 2, 3, 5])
+            mode = rng.choice(['default', 'const', 'callable'])
+            seq = [rng.choice([1.0, 0.5, 1.5]) for _ in range(niter)]
+            x = space.element(x0)
+            tr = []
+            kw = {}
+            if mode == 'default':
+                seq = [1.0] * niter
+            elif mode == 'const':
+                seq = [seq[0] if seq else 1.0] * niter
+                kw['lam'] = seq[0] if seq else 1.0
+            else:
+                kw['lam'] = lambda k: seq[k]
+            if ls is not None:
+                kw['l'] = ls
+            odl.solvers.douglas_rachford_pd(x, f, gs, Ls, niter, tau=tau, sigma=[t[1] for t in terms],
+                                            callback=_cb(tr), **kw)
+            term = 'CDr ' + _rec(dr_f=ft, dr_blocks=C.lst([t[0] for t in terms]), dr_tau=C.q(tau), dr_lams=C.qs(seq),
+                                 dr_x0=C.qs(x0), dr_trace=C.qss(tr), dr_final=C.qs(_flat(x)))
+            cs.add(term, {'solver': 'douglas_rachford_pd', 'f': fk, 'blocks': desc, 'tau': tau, 'lams': seq, 'x0': x0,
+                          'niter': niter},
+                   ('dr', ft, str(desc), tau, tuple(seq), tuple(x0), niter) if _moved(x0, tr) else None)
 
 
 def _objective(rng, n):
@@ -2078,15 +2103,15 @@ def _transcription_probes(out):
 def _norm_estimate_probes(rng, out):
     """power_method_opnorm and the default step sizes derived from it, at magnitudes 2**-30 .. 2**20 of the operator:
     the estimate must be within 1e-3 of the true norm (never above) for operators with a clear spectral gap, and
-    landweber(omega=None), pdhg_stepsize(L) must stay admissible.  Magnitudes <= 2**-20 are finding
+    landweber(omega=None), pdhg_stepsize(L) must stay admissible.  Magnitudes <= 2**-17 (norm below ~2e-5) are finding
     power-method-atol-small-norm (absolute tolerance 1e-8 in the stopping test)."""
     import odl
     from odl.operator.oputils import power_method_opnorm
     R1 = np.array([[0.6, -0.8, 0.0], [0.8, 0.6, 0.0], [0.0, 0.0, 1.0]])
     R2 = np.array([[1.0, 0.0, 0.0], [0.0, 0.6, 0.8], [0.0, -0.8, 0.6]])
-    base = [R1.dot(np.diag([4.0, 1.0, 0.5])).dot(R2), np.diag([3.0, 1.0, 0.25]), R2.dot(np.diag([2.0, 0.5, 0.5])).dot(R1)]
-    for k in (-30, -20, -13, -10, 0, 10, 20):
-        key_suffix = 'small-norm' if k <= -20 else 'scale'
+    base = [R1.dot(np.diag([4.0, 1.0, 0.5])).dot(R2), np.diag([3.0, 1.0, 0.25]), R2.dot(np.diag([2.0, 0.5, 0.5])).dot(R1),
+            R1.dot(np.diag([1.0, 0.8, 0.5])).dot(R2), R2.dot(np.diag([2.0, 1.7, 0.3])).dot(R1)]     # the last two: small gap
+    for k in (-30, -20, -17, -13, -10, 0, 10, 20):
         for j, B in enumerate(base):
             with _guard(out, 'norm-estimates'):
                 A = B * 2.0 ** k
@@ -2096,7 +2121,7 @@ def _norm_estimate_probes(rng, out):
                       "expected=float(np.linalg.norm(A,2)); ok=(1-1e-3)*expected<=observed<=expected*(1+1e-9)\n" % (B.tolist(), k))
                 est = float(power_method_opnorm(odl.MatrixOperator(A), xstart=[1.0, 1.0, 1.0], maxiter=100))
                 _P(out, (1 - 1e-3) * true <= est <= true * (1 + 1e-9),
-                   'power-method-atol-small-norm' if k <= -20 else 'power-method-estimate-accuracy',
+                   'power-method-atol-small-norm' if k <= -17 else 'power-method-estimate-accuracy',
                    'power_method_opnorm of a matrix with singular values (4,1,.5)-like times 2**%d: estimate/true = %.4f '
                    '(must be in [0.999, 1])' % (k, est / true), rp)
                 # default relaxation of landweber
@@ -2106,7 +2131,7 @@ def _norm_estimate_probes(rng, out):
                 vals = [float((op(x) - b).norm())]
                 np.random.seed(13 + j)
                 odl.solvers.landweber(op, x, b, 6, callback=lambda z: vals.append(float((op(z) - b).norm())))
-                _P(out, _mono(vals, 1e-9), 'power-method-atol-small-norm' if k <= -20 else 'landweber-default-omega-at-scale',
+                _P(out, _mono(vals, 1e-9), 'power-method-atol-small-norm' if k <= -17 else 'landweber-default-omega-at-scale',
                    'landweber(omega=None) on an operator of norm %.3g: residual non-increasing (%s)'
                    % (true, ['%.3g' % v for v in vals[:4]]),
                    "import odl, numpy as np\nA=np.array(%r)*2.0**%d; op=odl.MatrixOperator(A)\nb=op.range.element(np.array([2.,1.,2.])*2.0**%d); "
@@ -2115,7 +2140,7 @@ def _norm_estimate_probes(rng, out):
                    "observed=vals; ok=all(q<=p*(1+1e-9) for p,q in zip(vals,vals[1:]))\n" % (B.tolist(), k, k, 13 + j))
                 np.random.seed(13 + j)
                 t_, s_ = odl.solvers.pdhg_stepsize(odl.MatrixOperator(A))
-                _P(out, t_ * s_ * true ** 2 <= 1.0, 'power-method-atol-small-norm' if k <= -20 else 'pdhg_stepsize-admissible-at-scale',
+                _P(out, t_ * s_ * true ** 2 <= 1.0, 'power-method-atol-small-norm' if k <= -17 else 'pdhg_stepsize-admissible-at-scale',
                    'pdhg_stepsize(L) for |L| = %.3g: tau*sigma*|L|^2 = %.4f <= 1' % (true, t_ * s_ * true ** 2), None)
     # the documented finding, deterministic
     with _guard(out, 'norm-estimates'):
